@@ -42,6 +42,7 @@ var (
 	cacheMu    sync.Mutex
 	solverSem  = make(chan struct{}, 14)
 	wantAgree  = false
+	useCache   = false // a cached `unsat` hides how long the proof took; only `govc dev` uses it
 )
 
 func scriptHash(s string) string {
@@ -53,7 +54,7 @@ func scriptHash(s string) string {
 func solve(script string, file string, timeout time.Duration, needModel bool) SolveResult {
 	full := script
 	h := scriptHash(full)
-	if !needModel {
+	if !needModel && useCache {
 		cacheMu.Lock()
 		b, err := os.ReadFile(filepath.Join(cacheDir, h))
 		cacheMu.Unlock()
